@@ -158,11 +158,17 @@ func VerifC13() {
 		for _, n := range verifNames[1:] {
 			if ref[n] != nil && rt.Bool("nodeSeen") {
 				addNodeBreakerOfResource(n, "10.0.0.1:80")
+				if rt.Bool("secondNodeSeen") {
+					addNodeBreakerOfResource(n, "10.0.0.2:80")
+				}
 			}
 			nbs := getNodeBreakersOfResource(n)
 			if ref[n] == nil {
 				rt.Assert(len(nbs) == 0, "a resource without a rule in force keeps no node breakers")
 				continue
+			}
+			if b1, b2 := nbs["10.0.0.1:80"], nbs["10.0.0.2:80"]; b1 != nil && b2 != nil {
+				rt.Assert(!rt.SameObject(b1, b2), "every known node has a breaker of its own")
 			}
 			for _, b := range nbs {
 				rt.Reach("c13.node-breaker")
